@@ -1188,6 +1188,14 @@ impl<'r> Sh<'r> {
                 else_s: None,
             }));
         }
+        if self.rng.chance(1, 5) {
+            // the handler resumes from inside a GOSUB routine of its own: that GOSUB is
+            // abandoned, a later stray RETURN of the program finds none pending
+            out.push(self.st(StmtKind::Gosub("HG1".into())));
+            let t = self.trace(&[]);
+            out.push(t);
+            out.push(self.st(StmtKind::Label("HG1".into())));
+        }
         if self.rng.chance(1, 3) {
             // the handler resumes from inside a loop of its own: the interrupted code
             // must not inherit that loop's frame
@@ -2085,6 +2093,11 @@ pub fn gen_control_flow(rng: &mut Rng, avoid: &Avoid) -> Scenario {
                 ]);
                 main.push(g.st(StmtKind::Fail(k)));
             }
+        }
+        if g.rng.chance(1, 6) {
+            // resume from inside a GOSUB routine of the handler
+            main.push(g.st(StmtKind::Gosub("HG1".into())));
+            main.push(g.st(StmtKind::Label("HG1".into())));
         }
         main.push(g.st(StmtKind::Resume(kind)));
     }
